@@ -58,6 +58,9 @@ func (s *c11scn) record(c c11call) {
 
 // C11 scenario with k custom channels and G writer goroutines under flow control.
 func c11scenario(rep *vh.Report, seed uint64, idx int) {
+	if aborted() {
+		return
+	}
 	r := vh.Sub(seed, fmt.Sprintf("c11-%d", idx))
 	k := 1 + r.Intn(8)
 	G := 2 + r.Intn(5)
@@ -379,8 +382,12 @@ func c11scenario(rep *vh.Report, seed uint64, idx int) {
 	for _, ch := range s.chans {
 		backlog += ch.VerifBacklog()
 	}
-	s.node.Close()
-	fnode.Close()
+	if !safeClose(rep, s.node) {
+		return
+	}
+	if !safeClose(rep, fnode) {
+		return
+	}
 	<-s.cons.done
 
 	// offline check of every capture
@@ -513,6 +520,9 @@ func TestC11(t *testing.T) {
 
 // c11tcp: the same fan-out properties over real TCP connections (server endpoint, k loopback peers).
 func c11tcp(rep *vh.Report, seed uint64, idx int) {
+	if aborted() {
+		return
+	}
 	r := vh.Sub(seed, fmt.Sprintf("c11-tcp-%d", idx))
 	hookReset(r.U64(), true, true)
 	k := 2 + r.Intn(4)
@@ -544,7 +554,9 @@ func c11tcp(rep *vh.Report, seed uint64, idx int) {
 		c, err := net.Dial("tcp4", fmt.Sprintf("127.0.0.1:%d", port))
 		if err != nil {
 			rep.Inconclusive("C11 tcp: dial: " + err.Error())
-			node.Close()
+			if !safeClose(rep, node) {
+				return
+			}
 			return
 		}
 		p := &peer{conn: c, label: "tcp:" + c.LocalAddr().String()}
@@ -592,7 +604,9 @@ func c11tcp(rep *vh.Report, seed uint64, idx int) {
 	}
 	if !cons.waitOpen(k, 3*time.Second) {
 		rep.Inconclusive("C11 tcp: channels did not open")
-		node.Close()
+		if !safeClose(rep, node) {
+			return
+		}
 		return
 	}
 	chans := make([]*gomavlib.Channel, k)
@@ -606,7 +620,9 @@ func c11tcp(rep *vh.Report, seed uint64, idx int) {
 	for _, ch := range chans {
 		if ch == nil {
 			rep.HarnessError("C11 tcp: a peer could not be matched to a channel by its label")
-			node.Close()
+			if !safeClose(rep, node) {
+				return
+			}
 			return
 		}
 	}
@@ -679,7 +695,9 @@ func c11tcp(rep *vh.Report, seed uint64, idx int) {
 		}
 		return true
 	}, total, 1500*time.Millisecond)
-	node.Close()
+	if !safeClose(rep, node) {
+		return
+	}
 	<-cons.done
 	for _, p := range peers {
 		p.conn.Close()
